@@ -447,6 +447,7 @@ func RunCheck(opts CheckOpts) int {
 			"mathematical_int_assumed": mathint,
 			"assumed_externals":        assumedExt,
 			"bounded":                  []string{},
+			"renamed_locals_recovered": eng.renameNotes,
 		},
 		"assumptions": assumptionList(assumedExt, trusted),
 	}
